@@ -80,8 +80,8 @@ def run(F, R, tier):
     # ---- (b) write_all writes header ‖ data once -------------------------------------------------------------------
     wa = F.fn(PCAP + "Pcap::write_all")
     if R.anchor("Pcap::write_all", wa):
-        b = H.body_of(wa)
-        writes = [x for x in H.walk(b) if x.get("k") == "mcall" and x["m"] in ("write_all", "write")]
+        b = H.body_inl(F, wa, keep=("write_all", "write", "into"))
+        writes = [x for x in H.walk(b) if x.get("k") == "mcall" and x["m"] in ("write_all", "write") and "Write" in (x.get("decl") or x.get("callee") or "")]
         ok = len(writes) == 2 and all(x["m"] == "write_all" and H.render(H.strip(x["args"][0])) == "bytes" for x in writes)
         lets_ = {x["pat"]["id"]: x["init"] for x in H.walk(b) if x.get("k") == "let" and x.get("pat", {}).get("k") == "bind" and x.get("init") is not None}
         leaves = []
@@ -206,6 +206,6 @@ def run(F, R, tier):
         R.ob("eof-mapping", H.last(fn), ok, "EOF test: %s; at end of input: %s; otherwise: %s" % (hs[0] if hs else (None, None, None)), F.loc(g))
         if fn.startswith(BF):
             # any other error becomes an error object
-            objs = [x for x in H.walk(H.body_of(g)) if x.get("k") == "call" and H.last(x.get("ctor", "")) == "Err"
+            objs = [x for x in H.walk(H.body_inl(F, g)) if x.get("k") == "call" and H.last(x.get("ctor", "")) == "Err"
                     and "object::Object::Err" in x.get("ctor", "") and re.search(r"ErrorObj::IO\(\w+\)", H.render(x))]
             R.ob("eof-mapping", H.last(fn) + ": other errors → error object", len(objs) >= 1, "%d error-object results" % len(objs), F.loc(g))
